@@ -67,6 +67,26 @@ def docHTML (doctype : Option Str) (root : Node) : Str :=
   | .elem n _ _ _ => if n = wrapperName then dt ++ root.innerHTML else dt ++ root.html
   | .text s => dt ++ s
 
+/-- `not data.strip()` -/
+def isBlank (s : Str) : Bool := (strip s).isEmpty
+
+/-- `[\n]*[ \t]*` of `utils.DOCTYPE_MATCH` -/
+def wsNL (s : Str) : Bool :=
+  ((s.dropWhile (· = '\n')).dropWhile (fun c => c = ' ' || c = '\t')).isEmpty
+
+/-- `utils.DOCTYPE_MATCH` at token level: a leading doctype declaration, optionally preceded by newlines
+    then blanks.  Returns the matched prefix and what follows it. -/
+def leadDoctype : List Token → Option (List Token × List Token)
+  | .decl d :: r => some ([.decl d], r)
+  | .data ws :: .decl d :: r => if wsNL ws then some ([.data ws, .decl d], r) else none
+  | _ => none
+
+/-- The parsed document as the public API shows it. -/
+structure Doc where
+  doctype : Option Str
+  root : Option Node
+  deriving Repr, Inhabited
+
 /-! ### normal form used when trees are compared: adjacent text merged, empty text dropped -/
 mutual
 def Node.norm : Node → Node
